@@ -1,5 +1,5 @@
 (* Proofs about contract simplification (Type::simplify) and the typed/untyped boundary. *)
-From Coq Require Import List String Bool Permutation.
+From Coq Require Import List String ZArith Bool Permutation.
 From NV Require Import Contract.Data Contract.Gen Contract.Apply Contract.Checks Contract.CheckProofs.
 Import ListNotations.
 Open Scope bool_scope.
@@ -298,7 +298,7 @@ Proof.
         destruct (simplify t sv p); try discriminate. cbn [checks] in Ht.
         apply (skn_app [] _ _ _); auto.
         apply skn_nil. rewrite negs_under, (skn_nil_inv _ Ht). reflexivity.
-      - rewrite app_nil_r. apply skn_app; auto. apply skn_under. exact Ht. }
+      - apply skn_app; auto. apply skn_under. exact Ht. }
     (* the tail *)
     set (tail' := simplify_rtail sv p (keys rows) tail).
     assert (Htail : skn (tail_checks es p (keys rows') tail') (tail_checks eo p (keys rows) tail)).
@@ -363,7 +363,7 @@ Proof.
     destruct (forallb _ rows' && _ && is_pos p) eqn:E; [|exact Hfull].
     apply andb_true_iff in E. destruct E as [E Ep]. apply andb_true_iff in E. destruct E as [Eall Et].
     destruct p; [|discriminate]. destruct tail; [|discriminate].
-    cbn [checks]. rewrite checks_enum. apply skn_drop; [reflexivity|].
+    rewrite checks_enum. change (checks TDyn Pos es) with (@nil chk). apply skn_drop; [reflexivity|].
     apply (skn_app [] _ [] _); [|apply skn_nil; reflexivity].
     eapply skn_trans; [|exact Hrows]. apply skn_nil.
     (* every argument type was simplified to Dyn: no check at all on that side *)
@@ -388,3 +388,325 @@ Proof.
       cbn [checks]. rewrite (Hsame eq_refl Hnr). apply skn_refl.
   - (* Opaque *) apply skn_refl.
 Qed.
+
+(* ------------------------------------------------------------------ the theorems on simplify *)
+
+Theorem simplify_keeps_negative T : wk T [] = true ->
+  negs (checks (static_type T) Pos []) = negs (checks T Pos []).
+Proof. intros H. exact (proj1 (simplify_checks T [] H sv_empty Pos [] [] inv_empty)). Qed.
+
+Theorem simplify_adds_no_check T : wk T [] = true ->
+  incl (checks (static_type T) Pos []) (checks T Pos []).
+Proof. intros H. exact (proj2 (simplify_checks T [] H sv_empty Pos [] [] inv_empty)). Qed.
+
+(* Regression witnesses of two defects found with this model and since fixed in /repo (65f37a8):
+   a kept forall shadows an elided forall of the same name. *)
+Definition shadow_ty : ty :=
+  TForall "a"%string KType (TArrow (TForall "a"%string KType (TArrow (TVar "a"%string) (TVar "a"%string))) (TArrow (TVar "a"%string) (TVar "a"%string))).
+
+Example shadow_ty_wk : wk shadow_ty [] = true.
+Proof. reflexivity. Qed.
+
+Example shadow_ty_simplified :
+  static_type shadow_ty =
+  TArrow (TForall "a"%string KType (TArrow (TVar "a"%string) (TVar "a"%string))) (TArrow TDyn TDyn).
+Proof. reflexivity. Qed.
+
+Example shadow_ty_negative_checks :
+  negs (checks (static_type shadow_ty) Pos []) =
+  [ mkChk [SDom] Neg KIsFun; mkChk [SDom; SDom] Neg (KVar "a"%string); mkChk [SDom; SCodom] Neg (KVar "a"%string) ].
+Proof. reflexivity. Qed.
+
+Definition shadow_row_ty : ty :=
+  TForall "r"%string (KRecRows ["y"%string])
+    (TArrow (TForall "r"%string (KRecRows ["x"%string])
+               (TArrow (TRec [("x"%string, TNum)] (RVar "r"%string)) (TRec [("x"%string, TNum)] (RVar "r"%string))))
+            (TArrow (TRec [("y"%string, TNum)] (RVar "r"%string)) TNum)).
+
+Example shadow_row_ty_simplified :
+  wk shadow_row_ty [] = true /\
+  static_type shadow_row_ty =
+  TArrow (TForall "r"%string (KRecRows ["x"%string])
+            (TArrow (TRec [("x"%string, TDyn)] (RVar "r"%string)) (TRec [("x"%string, TNum)] (RVar "r"%string))))
+         (TArrow (TRec [("y"%string, TNum)] RDyn) TDyn).
+Proof. split; reflexivity. Qed.
+
+(* ------------------------------------------------------------------ first-order types under simplify *)
+
+(* source-level types: the internal tail [RExcl] does not occur *)
+Fixpoint no_excl (T : ty) : bool :=
+  match T with
+  | TDyn | TNum | TStr | TBool | TVar _ | TOpaque _ => true
+  | TArr t => no_excl t
+  | TArrow a b => no_excl a && no_excl b
+  | TRec rows tail =>
+      (fix go (rs : list (string * ty)) : bool :=
+         match rs with [] => true | (_, t) :: rs' => no_excl t && go rs' end) rows
+      && match tail with RExcl _ => false | _ => true end
+  | TDict _ t => no_excl t
+  | TEnum rows _ =>
+      (fix go (rs : list (string * option ty)) : bool :=
+         match rs with
+         | [] => true
+         | (_, None) :: rs' => go rs'
+         | (_, Some t) :: rs' => no_excl t && go rs'
+         end) rows
+  | TForall _ _ t => no_excl t
+  end.
+
+Lemma no_excl_rec rows tail :
+  no_excl (TRec rows tail) =
+  forallb (fun r => no_excl (snd r)) rows && match tail with RExcl _ => false | _ => true end.
+Proof. cbn. f_equal. induction rows as [|[k t] rows IH]; cbn; auto. now rewrite IH. Qed.
+
+Lemma no_excl_enum rows tail :
+  no_excl (TEnum rows tail) =
+  forallb (fun r => match snd r with Some t => no_excl t | None => true end) rows.
+Proof. cbn. induction rows as [|[k [t|]] rows IH]; cbn; auto. now rewrite IH. Qed.
+
+(* in negative position a first-order type is left as it is *)
+Lemma simplify_fo_neg : forall T, first_order T = true -> forall sv, simplify T sv Neg = T.
+Proof.
+  induction T as [| | | |t IH|a IHa b IHb|rows tail IH|fl t IH|rows tail IH|x k t IH|x|n] using ty_ind';
+    intros Hfo sv; try discriminate; try reflexivity.
+  - cbn in *. rewrite IH by auto. now rewrite andb_false_r.
+  - rewrite first_order_rec in Hfo. apply andb_true_iff in Hfo. destruct Hfo as [Hrows Htail].
+    rewrite simplify_rec. cbv zeta.
+    assert (E : simp_rows sv Neg (can_elide sv tail) rows = rows).
+    { unfold simp_rows. induction IH as [|[k t] rows Ht _ IHrows]; [reflexivity|].
+      cbn in Hrows. apply andb_true_iff in Hrows. destruct Hrows as [H1 H2].
+      cbn [flat_map fst snd]. cbn in Ht. rewrite Ht by auto.
+      replace (is_dyn t && is_pos Neg && can_elide sv tail) with false
+        by (cbn; now rewrite andb_false_r).
+      cbn [app]. now rewrite IHrows. }
+    rewrite E. destruct tail; try discriminate; cbn; destruct rows; reflexivity.
+  - cbn in *. rewrite IH by auto. now rewrite andb_false_r.
+  - rewrite first_order_enum in Hfo. apply andb_true_iff in Hfo. destruct Hfo as [Hrows Htail].
+    rewrite simplify_enum. cbv zeta. rewrite andb_false_r.
+    f_equal. unfold simp_erows. induction IH as [|[k [t|]] rows Ht _ IHrows]; cbn; auto.
+    + cbn in Hrows. apply andb_true_iff in Hrows. destruct Hrows as [H1 H2].
+      cbn in Ht. rewrite Ht by auto. now rewrite IHrows.
+    + cbn in Hrows. now rewrite IHrows.
+Qed.
+
+(* in positive position a first-order source type is elided altogether *)
+Lemma simplify_fo_pos : forall T, first_order T = true -> no_excl T = true ->
+  forall sv, simplify T sv Pos = TDyn.
+Proof.
+  induction T as [| | | |t IH|a IHa b IHb|rows tail IH|fl t IH|rows tail IH|x k t IH|x|n] using ty_ind';
+    intros Hfo Hne sv; try discriminate; try reflexivity.
+  - cbn in *. now rewrite IH.
+  - rewrite first_order_rec in Hfo. apply andb_true_iff in Hfo. destruct Hfo as [Hrows Htail].
+    rewrite no_excl_rec in Hne. apply andb_true_iff in Hne. destruct Hne as [Nrows Ntail].
+    rewrite simplify_rec. cbv zeta.
+    assert (Hel : can_elide sv tail = true) by (destruct tail; try discriminate; reflexivity).
+    assert (E : simp_rows sv Pos (can_elide sv tail) rows = []).
+    { rewrite Hel. induction IH as [|[k t] rows Ht _ IHrows]; [reflexivity|].
+      cbn in Hrows, Nrows. apply andb_true_iff in Hrows. apply andb_true_iff in Nrows.
+      destruct Hrows as [H1 H2], Nrows as [N1 N2].
+      change (simp_rows sv Pos true ((k, t) :: rows))
+        with ((if is_dyn (simplify t sv Pos) && is_pos Pos && true then [] else [(k, simplify t sv Pos)])
+              ++ simp_rows sv Pos true rows).
+      cbn in Ht. rewrite Ht by auto. cbn [is_dyn is_pos andb app]. auto. }
+    rewrite E. destruct tail; try discriminate; reflexivity.
+  - cbn in *. now rewrite IH.
+  - rewrite first_order_enum in Hfo. apply andb_true_iff in Hfo. destruct Hfo as [Hrows Htail].
+    rewrite no_excl_enum in Hne.
+    rewrite simplify_enum. cbv zeta.
+    assert (E : forallb (fun r : string * option ty => match snd r with Some t' => is_dyn t' | None => true end)
+                  (simp_erows sv Pos rows) = true).
+    { unfold simp_erows. induction IH as [|[k [t|]] rows Ht _ IHrows]; cbn; auto.
+        cbn in Hrows, Hne. apply andb_true_iff in Hrows. apply andb_true_iff in Hne.
+        destruct Hrows as [H1 H2], Hne as [N1 N2].
+        cbn in Ht. rewrite Ht by auto. cbn. now rewrite IHrows. }
+    rewrite E. destruct tail; try discriminate. reflexivity.
+Qed.
+
+(* ------------------------------------------------------------------ the boundary, first-order *)
+
+Definition outcome_equiv (a b : outcome dv) : Prop :=
+  match a, b with
+  | Ok x, Ok y => dv_equiv x y
+  | Err e, Err e' => e = e'
+  | _, _ => False
+  end.
+
+Lemma obind_ok_r {A} (o : outcome A) : obind o (fun x => Ok x) = o.
+Proof. destruct o; reflexivity. Qed.
+
+Definition arrow_c (A B : ty) : cexpr :=
+  if is_dyn A && is_dyn B then CFuncDyn
+  else if is_dyn A then CFuncCodom (fo_c B)
+  else if is_dyn B then CFuncDom (fo_c A)
+  else CFunc (fo_c A) (fo_c B).
+
+Lemma contract_of_arrow A B :
+  first_order A = true -> first_order B = true ->
+  contract_of (TArrow A B) = Some (arrow_c A B).
+Proof.
+  intros HA HB. unfold contract_of, arrow_c. cbn [subcontract].
+  destruct (is_dyn A && is_dyn B); auto.
+  destruct (is_dyn A).
+  - rewrite (subcontract_fo B HB). reflexivity.
+  - destruct (is_dyn B).
+    + rewrite (subcontract_fo A HA). reflexivity.
+    + rewrite (subcontract_fo A HA), (subcontract_fo B HB). reflexivity.
+Qed.
+
+(* the full contract of [A -> B]: check the argument against A with the polarity flipped, run the
+   function, check the result against B *)
+Lemma wrap_full_arrow A B g :
+  first_order A = true -> first_order B = true ->
+  exists w, wrap_full (TArrow A B) g = Ok w /\
+            forall x, w x = obind (check_pol Neg A x) (fun x' => obind (g x') (check_pol Pos B)).
+Proof.
+  intros HA HB. unfold wrap_full. rewrite contract_of_arrow by auto. unfold arrow_c.
+  destruct (is_dyn A) eqn:EA; destruct (is_dyn B) eqn:EB; cbn [andb apply_fun flip].
+  - destruct A; try discriminate. destruct B; try discriminate.
+    exists g. split; [reflexivity|]. intros x. unfold check_pol. cbn. now rewrite obind_ok_r.
+  - destruct A; try discriminate.
+    eexists. split; [reflexivity|]. intros x. cbn beta.
+    change (check_pol Neg TDyn x) with (Ok x). cbn [obind].
+    destruct (g x) as [r|e]; cbn [obind]; [|reflexivity]. now rewrite check_pol_fo.
+  - destruct B; try discriminate.
+    eexists. split; [reflexivity|]. intros x. cbn beta. rewrite (check_pol_fo Neg A x HA).
+    destruct (apply_data (fo_c A) Neg x) as [x'|e]; cbn [obind]; [|reflexivity].
+    destruct (g x') as [r|e]; reflexivity.
+  - eexists. split; [reflexivity|]. intros x. cbn beta. rewrite (check_pol_fo Neg A x HA).
+    destruct (apply_data (fo_c A) Neg x) as [x'|e]; cbn [obind]; [|reflexivity].
+    destruct (g x') as [r|e]; cbn [obind]; [|reflexivity]. now rewrite check_pol_fo.
+Qed.
+
+(* the static contract of [A -> B]: only the argument check is left *)
+Lemma static_type_arrow A B :
+  first_order A = true -> first_order B = true -> no_excl B = true ->
+  static_type (TArrow A B) = TArrow A TDyn.
+Proof.
+  intros HA HB NB. unfold static_type. cbn [simplify flip].
+  now rewrite simplify_fo_neg, simplify_fo_pos.
+Qed.
+
+Lemma wrap_static_arrow A B g :
+  first_order A = true -> first_order B = true -> no_excl B = true ->
+  exists w, wrap_static (TArrow A B) g = Ok w /\
+            forall x, w x = obind (check_pol Neg A x) g.
+Proof.
+  intros HA HB NB. unfold wrap_static, contract_static_of. rewrite static_type_arrow by auto.
+  destruct (wrap_full_arrow A TDyn g HA eq_refl) as (w & Hw & Hx). unfold wrap_full in Hw.
+  exists w. split; auto. intros x. rewrite Hx.
+  destruct (check_pol Neg A x); cbn; auto. unfold check_pol. cbn. now rewrite obind_ok_r.
+Qed.
+
+Section Boundary.
+  Variables A B : ty.
+  Hypothesis HA : first_order A = true.
+  Hypothesis HB : first_order B = true.
+  Hypothesis WA : wf_ty A = true.
+  Hypothesis WB : wf_ty B = true.
+  Variable g : dv -> outcome dv.      (* the typed implementation *)
+
+  (* [f : A -> B] used by untyped code, full contract *)
+  Theorem boundary_arrow :
+    exists w, wrap_full (TArrow A B) g = Ok w /\
+      (* a non-A argument: negative blame, whatever the body is *)
+      (forall x, member A x = false -> w x = Err (Blame Neg)) /\
+      (* an A argument reaches the body unchanged; the result is then checked against B *)
+      (forall x, member A x = true ->
+         exists x', dv_equiv x' x /\ member A x' = true /\
+           (forall e, g x' = Err e -> w x = Err e) /\
+           (forall r, g x' = Ok r ->
+              (member B r = true -> exists r', w x = Ok r' /\ dv_equiv r' r) /\
+              (member B r = false -> w x = Err (Blame Pos)))).
+  Proof.
+    destruct (wrap_full_arrow A B g HA HB) as (w & Hw & Hx). exists w. split; auto. split.
+    - intros x Hm. rewrite Hx. rewrite (check_pol_fail_is_blame A HA WA Neg x Hm). reflexivity.
+    - intros x Hm.
+      destruct (proj2 (check_pol_sound_complete A HA WA Neg x) Hm) as (x' & Hx').
+      exists x'. split; [exact (check_pol_identity A HA WA Neg x x' Hx')|]. split.
+      { apply (check_pol_sound_complete A HA WA Neg x'). exists x'.
+        exact (check_pol_idempotent A HA WA Neg x x' Hx'). }
+      split.
+      + intros e He. rewrite Hx, Hx'. cbn. now rewrite He.
+      + intros r Hr. rewrite Hx, Hx'. cbn. rewrite Hr. cbn. split.
+        * intros HmB. destruct (proj2 (check_pol_sound_complete B HB WB Pos r) HmB) as (r' & Hr').
+          exists r'. split; auto. exact (check_pol_identity B HB WB Pos r r' Hr').
+        * intros HmB. exact (check_pol_fail_is_blame B HB WB Pos r HmB).
+  Qed.
+
+  (* the static contract blames the untyped side on exactly the same arguments, and never blames
+     the typed side *)
+  Hypothesis NB : no_excl B = true.
+
+  Theorem boundary_arrow_static :
+    exists w, wrap_static (TArrow A B) g = Ok w /\
+      (forall x, member A x = false -> w x = Err (Blame Neg)) /\
+      (forall x, member A x = true ->
+         exists x', dv_equiv x' x /\ member A x' = true /\ w x = g x').
+  Proof.
+    destruct (wrap_static_arrow A B g HA HB NB) as (w & Hw & Hx). exists w. split; auto. split.
+    - intros x Hm. rewrite Hx. rewrite (check_pol_fail_is_blame A HA WA Neg x Hm). reflexivity.
+    - intros x Hm.
+      destruct (proj2 (check_pol_sound_complete A HA WA Neg x) Hm) as (x' & Hx').
+      exists x'. split; [exact (check_pol_identity A HA WA Neg x x' Hx')|]. split.
+      { apply (check_pol_sound_complete A HA WA Neg x'). exists x'.
+        exact (check_pol_idempotent A HA WA Neg x x' Hx'). }
+      rewrite Hx, Hx'. reflexivity.
+  Qed.
+
+  (* for an implementation that respects its type (what C01 gives for typed code), the static
+     contract is observationally the full contract *)
+  Hypothesis g_typed : forall x r, member A x = true -> g x = Ok r -> member B r = true.
+
+  Theorem static_equiv_arrow :
+    exists wf ws, wrap_full (TArrow A B) g = Ok wf /\ wrap_static (TArrow A B) g = Ok ws /\
+      forall x, outcome_equiv (wf x) (ws x).
+  Proof.
+    destruct (wrap_full_arrow A B g HA HB) as (wf & Hwf & Hxf).
+    destruct (wrap_static_arrow A B g HA HB NB) as (ws & Hws & Hxs).
+    exists wf, ws. repeat split; auto. intros x. rewrite Hxf, Hxs.
+    destruct (check_pol_total A HA WA Neg x) as [(x' & Hx')|Hx']; rewrite Hx'; cbn; auto.
+    assert (Hm' : member A x' = true).
+    { apply (check_pol_sound_complete A HA WA Neg x'). exists x'.
+      exact (check_pol_idempotent A HA WA Neg x x' Hx'). }
+    destruct (g x') as [r|e] eqn:Hg; cbn; auto.
+    specialize (g_typed x' r Hm' Hg).
+    destruct (proj2 (check_pol_sound_complete B HB WB Pos r) g_typed) as (r' & Hr').
+    rewrite Hr'. cbn. exact (check_pol_identity B HB WB Pos r r' Hr').
+  Qed.
+End Boundary.
+
+(* data crossing the boundary: the static contract of a first-order type is $dyn, and the full
+   contract returns a member unchanged *)
+Theorem static_equiv_data T v :
+  first_order T = true -> wf_ty T = true -> no_excl T = true -> member T v = true ->
+  contract_static_of T = Some CDyn /\
+  exists v', check T v = Ok v' /\ dv_equiv v' v.
+Proof.
+  intros Hfo Hwf Hne Hm. split.
+  - unfold contract_static_of, static_type. now rewrite simplify_fo_pos.
+  - destruct (proj2 (check_pol_sound_complete T Hfo Hwf Pos v) Hm) as (v' & Hv').
+    exists v'. split; auto. exact (check_pol_identity T Hfo Hwf Pos v v' Hv').
+Qed.
+
+(* Regression witness (6b8f512): the excluded-only tail gives the extra fields back *)
+Example excluded_only_keeps_extra_fields :
+  apply_data (CRecord [("x"%string, CNum)] (CTVar (VExcludedOnly ["y"%string])) true) Neg
+             (DRec [("x"%string, DNum 1 1); ("w"%string, DNum 2 1)])
+  = Ok (DRec [("x"%string, DNum 1 1); ("w"%string, DNum 2 1)])
+  /\ apply_data (CRecord [("x"%string, CNum)] (CTVar (VExcludedOnly ["y"%string])) true) Neg
+             (DRec [("x"%string, DNum 1 1); ("y"%string, DNum 2 1)])
+  = Err (Blame Neg).
+Proof. split; reflexivity. Qed.
+
+(* the hypotheses of the boundary theorems are satisfiable by a non-trivial function *)
+Example boundary_hyps_example :
+  let A := TRec [("n"%string, TNum)] RDyn in
+  let B := TArr TNum in
+  let g := fun v => match v with
+                    | DRec fs => match lookup "n"%string fs with Some n => Ok (DArr [n; n]) | None => Err FieldMissing end
+                    | _ => Err FieldMissing end in
+  first_order A = true /\ first_order B = true /\ wf_ty A = true /\ wf_ty B = true /\ no_excl B = true /\
+  (exists w, wrap_full (TArrow A B) g = Ok w /\
+             w (DRec [("z"%string, DNull); ("n"%string, DNum 3 1)]) = Ok (DArr [DNum 3 1; DNum 3 1]) /\
+             w (DRec [("n"%string, DStr "x")]) = Err (Blame Neg)).
+Proof. cbn. repeat split. eexists. split; [reflexivity|]. split; reflexivity. Qed.
